@@ -148,7 +148,7 @@ def res_term(s):
 class C18(Property):
     id = "C18"
     title = "Authentication gates: protected handlers run only for valid credentials"
-    quick_cases = 540
+    quick_cases = 500
     thorough_cases = 9000
     design_ref = "DESIGN.md §6/C18"
     proof_targets = ["theories/C18/Props.vo", "theories/C18/Pinned.vo", "theories/C18/GenProofs.vo",
@@ -239,7 +239,15 @@ class C18(Property):
             r = {"now": 1000, "auth": "bearer", "header": hs, "payload": pay, "signkey": "s1", "signalg": "HS256"}
             r.update(kw)
             return r
-        return self._matrix_cases() + self._enum_cases() + [
+        # the case terms are evaluated in Coq in contiguous shards: the few heavy srv cases of the matrix are spread
+        # among the many light enumerated ones so that no shard gets them all
+        mx, en = self._matrix_cases(), self._enum_cases()
+        heavy = [c for c in mx if c["kind"] == "srv"]
+        head = [c for c in mx if c["kind"] != "srv"]
+        step = max(1, len(en) // (len(heavy) + 1))
+        for i, c in enumerate(heavy):
+            en.insert(min(len(en), (i + 1) * step + i), c)
+        return head + en + [
             {"kind": "jwt", "secret": "s1", "prev": "s0", "reqs": [
                 jr(), jr(signkey="s0"), jr(now=2000), jr(now=1999),
                 jr(mut=[{"op": "hdr", "s": jd({"alg": "none"})}, {"op": "sigempty"}]),
